@@ -670,16 +670,29 @@ def r4(ctx):
         rep.check(ok, 'R-C11-4', 'R-C11-4/value-generator', 'the value generator is RISTRETTO_BASEPOINT_POINT with RISTRETTO_BASEPOINT_COMPRESSED',
                   'value generator: %s / %s' % (short(hb, 60) if hb is not None else None, short(hc, 60) if hc is not None else None), ctx.where(pg))
         gb = ctx.fn('ristretto::get_g_base', 'R-C11-4', required=False)
-        if gb is not None:
-            rtg = ctx.eng.return_term(gb)
-            ok = rtg.tag == 'tuple' and len(rtg.args) == 2
+        # what the Pedersen generators are built from, whatever helper hands it over and in whatever shape (a tuple, a private struct,
+        # inline): the two vectors stored in the struct, with local helpers expanded
+        va, vb = f.get('g_base_vec'), f.get('g_base_compressed_vec')
+        if va is not None and vb is not None:
+            def whole(t):
+                # copies and full-range views of a vector are the vector: `v[..].to_owned()`, `v.to_vec()`, `v.clone()`
+                t = strip(t)
+                while True:
+                    if t.tag == 'call' and t[1].split('::')[-1] in ('to_owned', 'to_vec', 'clone', 'into', 'from', 'as_slice', 'deref', 'as_ref', 'borrow') and len(t[2]) == 1:
+                        t = strip(t[2][0])
+                    elif t.tag == 'elemat' and canon(strip(t[2])).startswith('RangeFull'):
+                        t = strip(t[1])
+                    else:
+                        return t
+            a, b = whole(ctx.eng.expand(va)), whole(ctx.eng.expand(vb))
+            rtg = T('tuple', a, b)
+            ok = True
             if ok:
-                a, b = rtg.args
                 sa = [x for x in walk(a) if x.tag == 'static']
                 sb = [x for x in walk(b) if x.tag == 'static']
                 ra, rb = canon(a).split('[')[-1], canon(b).split('[')[-1]
                 ok = bool(sa) and bool(sb) and sa[0][1] != sb[0][1] and mb is not None and cb is not None and sa[0][1].startswith(mb_owner.path + '::') and sb[0][1].startswith(cb.path.rsplit('::', 1)[0] + '::') and ra == rb and 'RangeTo' in ra
-            rep.check(ok, 'R-C11-4', 'R-C11-4/same-prefix', 'points and compressed points handed out are the same prefix [..degree] of the two arrays', 'get_g_base returns %s' % short(rtg, 200), ctx.where(gb))
+            rep.check(ok, 'R-C11-4', 'R-C11-4/same-prefix', 'points and compressed points handed out are the same prefix [..degree] of the two arrays', 'the Pedersen generators are built from %s' % short(rtg, 200), ctx.where(gb if gb is not None else pg))
 
 
 def r5(ctx):
